@@ -429,6 +429,15 @@ ERR = ("err",)
 # --------------------------------------------------------------------------------------------------
 # the model side: Facts / Cfg / ops as S-expressions; hook terms back
 # --------------------------------------------------------------------------------------------------
+_BUILTIN_IDS = {}
+
+
+def _intern_builtin(d, name, key):
+    """Globally stable id of the built-in hook `name` for type `key` (ids must agree between the converters of
+    one store: the copy of a converter may be constructed with another unstructure strategy)."""
+    return _BUILTIN_IDS.setdefault((d, name, key), 1000 + len(_BUILTIN_IDS))
+
+
 class ModelCtx:
     """Everything that depends on (converter configuration, direction): built-in table, ids, facts."""
 
@@ -436,18 +445,17 @@ class ModelCtx:
         self.cc, self.d, self.preds = cc, d, preds  # preds: {pid: (accepts:set, raises:set)}
         self.beh = {}      # builtin id -> Beh
         self.bid = {}      # type key -> builtin id (predicate tier)
-        nid = 1000
         for t in U.types:
             b = builtin_behaviour(cc, d, t.key)
             if b is not None and not excluded(cc, d, t.key):
+                nid = _intern_builtin(d, b.name, t.key)
                 self.beh[nid] = b
                 self.bid[t.key] = nid
-                nid += 1
         self.single = []
         for ck, b in builtin_single(cc, d):
+            nid = _intern_builtin(d, "single:" + b.name, ck)
             self.beh[nid] = b
             self.single.append((ck, nid))
-            nid += 1
         self.comps = {t.key: [c for c in comps_of(cc, d, t.key)] for t in U.types if not excluded(cc, d, t.key)}
         self.rank = {}
         for t in U.types:
@@ -462,14 +470,28 @@ class ModelCtx:
         self.rank[k] = r
         return r
 
-    def facts_sx(self):
+    def facts_sx(self, others=()):
+        """`others`: contexts of further converters of the same store (their late built-ins are added)."""
         mro = " ".join(f"({k} {' '.join(map(str, v))})" for k, v in U.mro.items() if v)
         holds = " ".join(f"({p} {' '.join(map(str, sorted(acc)))})" for p, (acc, _) in sorted(self.preds.items()))
         un = " ".join(str(t.key) for t in U.types if t.shape in ("union", "optional"))
         nt = " ".join(str(t.key) for t in U.types if t.shape == "newtype")
-        late = " ".join(str(i) for i, b in sorted(self.beh.items()) if b.late)
-        comps = " ".join(f"({k} {' '.join(map(str, v))})" for k, v in sorted(self.comps.items()) if v)
-        rank = " ".join(f"({k} {r})" for k, r in sorted(self.rank.items()))
+        lates = {i for c in (self, *others) for i, b in c.beh.items() if b.late}
+        late = " ".join(str(i) for i in sorted(lates))
+        merged = {}
+        for c in (self, *others):
+            for k, v in c.comps.items():
+                assert merged.setdefault(k, v) == v, "converters of one store must agree on the component structure"
+        rk = {}
+
+        def rank_of(k):
+            if k not in rk:
+                rk[k] = 1 + max([rank_of(c) for c in merged.get(k, [])], default=-1)
+            return rk[k]
+        for t in U.types:
+            rank_of(t.key)
+        comps = " ".join(f"({k} {' '.join(map(str, v))})" for k, v in sorted(merged.items()) if v)
+        rank = " ".join(f"({k} {r})" for k, r in sorted(rk.items()))
         return f"((mro {mro}) (holds {holds}) (union {un}) (newtype {nt}) (late {late}) (comps {comps}) (rank {rank}))"
 
     def cfg_sx(self, cc=None):
@@ -584,6 +606,7 @@ class Impl:
         self.cfgs = []      # ConvCfg of each
         self.current = None
         self.pred_fns = {}
+        self.reg_errors = []  # registrations / copies that raised (never expected)
 
     # ---- construction
     def fb_factory(self, d, fid):
@@ -695,6 +718,11 @@ class Impl:
         d = op.get("dir")
         try:
             return self._do(c, self.cfgs[i], kind, d, op)
+        except Exception as e:
+            if kind in ("hook", "func", "factory"):
+                self.reg_errors.append(f"{describe(op)} raised {type(e).__name__}: {e}"[:300])
+                return None
+            raise
         finally:
             self.current = None
 
@@ -822,7 +850,8 @@ def run_model(drv, history, d, cfgs0, preds):
         else:
             parts.append(s)
     store = " ".join(ctx0.cfg_sx(cc) for cc in cfgs0)
-    line = f"RUNHIST {ctx0.facts_sx()} ({store}) ({' '.join(parts)})"
+    others = [ModelCtx(cc, d, preds) for cc in list(cfgs0[1:]) + [s[2] for s in sops if isinstance(s, tuple)]]
+    line = f"RUNHIST {ctx0.facts_sx(others)} ({store}) ({' '.join(parts)})"
     r = drv.ask(line)
     if not r.startswith("(ok"):
         raise lean.InfraError("model driver: " + r[:200] + " on " + line[:2000])
@@ -848,12 +877,12 @@ def run_spec(drv, history, d, cc, preds, keys):
 # --------------------------------------------------------------------------------------------------
 # reference implementation of the documented precedence rule (oracle of C07), independent of the model
 # --------------------------------------------------------------------------------------------------
-def ref_choose(history, d, cc: ConvCfg, preds, key, conv=0, _ctx=None):
+def ref_choose(history, d, cc: ConvCfg, preds, key, conv=0, _ctx=None, literal=False):
     """The hook the documented rule selects for type `key` on converter `conv` after `history`
     (registrations of direction `d` on that converter; no copies), as a hook term."""
     ctx = _ctx or ModelCtx(cc, d, preds)
     regs = [op for op in history if op.get("dir") == d and op.get("conv") == conv and op["op"] in ("hook", "func", "factory")]
-    sub = lambda c: ref_choose(history, d, cc, preds, c, conv, ctx)  # noqa: E731
+    sub = lambda c: ref_choose(history, d, cc, preds, c, conv, ctx, literal)  # noqa: E731
     is_exact = lambda k: U.types[k].shape in ("union", "optional", "newtype")  # noqa: E731
     # 1. most specific class of the MRO with a registration; its latest hook (built-ins are the oldest)
     for c in U.mro[key]:
@@ -866,7 +895,9 @@ def ref_choose(history, d, cc: ConvCfg, preds, key, conv=0, _ctx=None):
     # 2. newest predicate hook / factory / exact-type registration accepting the type
     for op in reversed(regs):
         if op["op"] == "hook":
-            union_st = U.types[op["ty"]].shape in ("union", "optional") and d == ST
+            # `literal`: the property statement read literally puts union structure hooks into this tier too;
+            # the implementation (and the rule as documented in the brief) keeps them behind a built-in predicate
+            union_st = U.types[op["ty"]].shape in ("union", "optional") and d == ST and not literal
             if is_exact(op["ty"]) and not union_st and op["ty"] == key:
                 return ("user", op["tag"])
             continue
